@@ -53,7 +53,7 @@ def scalar_value(rng, kind, m, c05):
 
 
 def gen_graph(rng, m, spec, c05):
-    names = [c["name"] for c in spec["classes"]]
+    names = [c["name"] for c in spec["classes"] if not c.get("unmapped")]
     n = rng.choice([1, 2, 3, 4, 6, 8, 12, 18, 25])
     objs = []
     for i in range(n):
@@ -329,6 +329,8 @@ def db_roundtrip(m, iface, spec, root, C):
         # row counts per table
         with eng.connect() as conn:
             for c in spec["classes"]:
+                if c.get("unmapped"):
+                    continue
                 T = getattr(m, c["name"])
                 want = sum(1 for o in seen.values() if isinstance(o, T))
                 table = get_dao_class(T).__tablename__
